@@ -5,6 +5,7 @@ from checks import common
 from engine import tlc
 
 WORKER = os.path.join(common.VERIF, "harness", "tracker_worker.py")
+API_WORKER = os.path.join(common.VERIF, "harness", "tracker_api_worker.py")
 
 
 ALL = {"f1", "f2", "g", "d", "e", "h"}
@@ -28,6 +29,97 @@ def run_job(args):
     if not os.path.exists(jf + ".out"): raise RuntimeError("tracker worker failed: " + p.stderr[-500:])
     r = json.load(open(jf + ".out")); shutil.rmtree(d, ignore_errors=True)
     return r
+
+
+def run_api_job(args):
+    base, k, hists = args
+    d = os.path.join(base, "api%d" % k); os.makedirs(d)
+    jf = os.path.join(d, "job.json"); json.dump({"dir": d, "hists": hists, "kill": True}, open(jf, "w"))
+    p = subprocess.run(["/venv/bin/python", API_WORKER, jf], env=dict(os.environ, PYTHONPATH=os.environ.get("VERIF_REPO", "/repo"), PYTHONDONTWRITEBYTECODE="1"), capture_output=True, text=True, timeout=3000)
+    if not os.path.exists(jf + ".out"): raise RuntimeError("tracker api worker failed: " + p.stderr[-500:])
+    r = json.load(open(jf + ".out")); shutil.rmtree(d, ignore_errors=True)
+    return r
+
+
+LIFE = os.path.join(common.VERIF, "harness", "memmap_lifecycle.py")
+
+
+def session_pids(sid):
+    out = []
+    for p in os.listdir("/proc"):
+        if not p.isdigit(): continue
+        try:
+            st = open("/proc/%s/stat" % p).read()
+            f = st[st.rindex(")") + 2:].split()
+            if int(f[3]) == sid and f[0] != "Z": out.append(int(p))
+        except (OSError, ValueError, IndexError):
+            pass
+    return out
+
+
+def lifecycle_case(args):
+    """one end-to-end scenario of harness/memmap_lifecycle.py; returns the list of problems"""
+    import time, signal, glob
+    base, k, sc, backend = args
+    d = os.path.join(base, "life%d" % k); os.makedirs(d)
+    jf = os.path.join(d, "spec.json"); json.dump({"dir": d, "scenario": sc, "backend": backend}, open(jf, "w"))
+    env = dict(os.environ, PYTHONPATH=os.environ.get("VERIF_REPO", "/repo"), PYTHONDONTWRITEBYTECODE="1", JOBLIB_TEMP_FOLDER=d)
+    problems = []
+    with open(os.path.join(d, "driver.log"), "w") as lf:
+        p = subprocess.Popen(["python3-vt", LIFE, jf], env=env, stdout=lf, stderr=lf, stdin=subprocess.DEVNULL, start_new_session=True)
+    sid = p.pid
+    t0 = time.time()
+    try:
+        if sc in ("main_killed", "worker_killed"):
+            while time.time() - t0 < 60 and len(glob.glob(os.path.join(d, "task_started_*"))) < 2: time.sleep(0.02)
+            started = glob.glob(os.path.join(d, "task_started_*"))
+            if len(started) < 2: problems.append({"kind": "harness", "what": "tasks did not start"})
+            else:
+                seen_folder = [f for f in os.listdir(d) if f.startswith("joblib_memmapping_folder")]
+                if not seen_folder: problems.append({"kind": "harness", "what": "no memmapping folder while tasks run"})
+                victim = p.pid if sc == "main_killed" else int(started[0].rsplit("_", 1)[1])
+                os.kill(victim, signal.SIGKILL)
+                time.sleep(0.3)
+            open(os.path.join(d, "release"), "w").close()
+        try: p.wait(90)
+        except subprocess.TimeoutExpired: problems.append({"kind": "driver_hangs"}); p.kill()
+        # every process that could hold a reference must be gone, then the tracker cleans up and goes too.  Idle loky workers
+        # outlive a killed parent until their idle timeout (300 s): they are clients like any other - kill them ("clients
+        # exiting or being killed at any point") and keep only the tracker processes
+        def cmdline(x):
+            try: return open("/proc/%d/cmdline" % x).read().replace("\0", " ")
+            except OSError: return ""
+        t1 = time.time()
+        while time.time() - t1 < 8 and session_pids(sid): time.sleep(0.05)
+        for x in session_pids(sid):
+            if "resource_tracker import main" not in cmdline(x):
+                try: os.kill(x, signal.SIGKILL)
+                except OSError: pass
+        t1 = time.time()
+        while time.time() - t1 < 30 and session_pids(sid): time.sleep(0.05)
+        left = session_pids(sid)
+        if left:
+            problems.append({"kind": "tracker_does_not_exit", "pids": left, "cmd": [cmdline(x)[:120] for x in left]})
+            for x in left:
+                try: os.kill(x, signal.SIGKILL)
+                except OSError: pass
+        time.sleep(0.2)
+        rest = sorted(f for f in os.listdir(d) if f.startswith("joblib_memmapping_folder"))
+        if rest:
+            problems.append({"kind": "temporary_folder_left_behind", "folders": rest, "content": [os.listdir(os.path.join(d, f))[:5] for f in rest]})
+        recs = [json.loads(l) for l in open(os.path.join(d, "task_log"))] if os.path.exists(os.path.join(d, "task_log")) else []
+        for r in recs:
+            if not r["memmap"]: problems.append({"kind": "harness", "what": "argument was not memory-mapped"}); break
+            if not (r["exists_at_start"] and r["exists_after_use"]): problems.append({"kind": "file_deleted_while_in_use", "task": r}); break
+            if not r["sum_ok"]: problems.append({"kind": "wrong_values", "task": r}); break
+        if sc not in ("main_killed",) and not os.path.exists(os.path.join(d, "driver_out.json")) and not problems:
+            problems.append({"kind": "driver_died", "log": open(os.path.join(d, "driver.log")).read()[-300:]})
+        if sc == "managed_two_calls" and os.path.exists(os.path.join(d, "driver_out.json")):
+            o = json.load(open(os.path.join(d, "driver_out.json")))
+            if not o.get("folders_between_calls"): problems.append({"kind": "harness", "what": "no folder between two calls of a with block"})
+    finally:
+        shutil.rmtree(d, ignore_errors=True)
+    return sc, backend, len(recs) if 'recs' in dir() else 0, problems
 
 
 def body(c):
@@ -59,6 +151,36 @@ def body(c):
     jobs = [(base, k, allh[k::nw], k % 2 == 0) for k in range(nw)]
     with ThreadPoolExecutor(max_workers=nw) as ex:
         results = list(ex.map(run_job, jobs))
+    # the same sequences through the public client API (register / maybe_unlink / unregister of the process-wide tracker that
+    # ensure_running spawns), from two real client processes; a client that goes away exits or is killed
+    pool = [h for h in (hists + hf + hr + long) if len(h) >= 3]
+    napi = 350 if c.quick else 12000
+    apih = pool if len(pool) <= napi else rng.sample(pool, napi)
+    ajobs = [(base, k, apih[k::nw]) for k in range(nw)]
+    with ThreadPoolExecutor(max_workers=nw) as ex:
+        ares = list(ex.map(run_api_job, ajobs))
+    for (b, k, hs), res in zip(ajobs, ares):
+        for h, r in zip(hs, res):
+            c.evaluations += 1
+            ops = [[e["c"], e["cmd"], e["x"]] for e in h]
+            c.nontrivial.add("api:" + json.dumps(ops))
+            for pb in r["problems"]:
+                c.violation({"kind": pb["kind"], "leg": "client-api", "requests": ops, "step": pb.get("step")},
+                            "C20 (client API, real client processes): %s after the request sequence %s: %s" % (pb["kind"], ops[: (pb.get("step") or len(ops)) + 1], pb), {})
+    c.extra["sequences_through_client_api"] = len(apih)
+    # end to end: joblib's own users of the tracker (TemporaryResourcesManager, memmapping reducers) under python3-vt
+    lcases = [(base, k, sc, be) for k, (sc, be) in enumerate((sc, be) for be in (("loky", "multiprocessing") if not c.quick else ("loky",))
+              for sc in ("plain", "managed_two_calls", "task_fails", "main_killed", "worker_killed", "generator_abandoned", "generator_alive_at_exit")
+              if not (be == "multiprocessing" and sc in ("worker_killed", "generator_abandoned", "generator_alive_at_exit")))]
+    with ThreadPoolExecutor(max_workers=4) as ex:
+        lres = list(ex.map(lifecycle_case, lcases))
+    for sc, be, ntasks, pbs in lres:
+        c.evaluations += 1; c.nontrivial.add("lifecycle:%s:%s" % (sc, be))
+        for pb in pbs:
+            if pb["kind"] == "harness": raise RuntimeError("lifecycle harness: %s %s %s" % (sc, be, pb))
+            c.violation({"kind": pb["kind"], "leg": "memmapping-lifecycle", "scenario": sc, "backend": be},
+                        "C20 (temporary memmapping resources, %s backend, scenario %s): %s" % (be, sc, pb), {})
+    c.extra["lifecycle_scenarios"] = [[sc, be, n] for sc, be, n, _ in lres]
     shutil.rmtree(base, ignore_errors=True)
     synced = 0; cm = 0; hooked = 0
     for (b, k, hs, hook), res in zip(jobs, results):
@@ -76,7 +198,8 @@ def body(c):
     c.rule = ("every request sequence of length <= %d of ResourceTracker.tla (2 clients; REGISTER / MAYBE_UNLINK / UNREGISTER / malformed, empty or blank line / re-creation of a deleted path on 2 files, a folder and "
               "a file inside it; client gone; end of all clients) plus TLC-simulated sequences up to 10 requests, sent verbatim to a real resource_tracker.main on a "
               "private pipe; after every request (sentinel barrier) the set of existing paths must be the model's, the tracker must be alive, and after the "
-              "last client is gone exactly the still-registered paths disappear; with the hook on, reference counts are compared too (drift); distinct = sequence" % L)
+              "last client is gone exactly the still-registered paths disappear; with the hook on, reference counts are compared too (drift); a sample of the sequences is also replayed through the public client API "
+              "(resource_tracker.register / maybe_unlink / unregister, tracker spawned by ensure_running) from two real client processes, one of which exits or is killed; distinct = sequence" % L)
     c.exhaustive = True
     c.assumptions += ["clients are write ends of the pipe held by the driver (a killed client = its descriptor closed by the kernel)"]
 
